@@ -1,0 +1,26 @@
+// Copyright (C) The Arvados Authors. All rights reserved.
+//
+// SPDX-License-Identifier: AGPL-3.0
+
+//go:build verif
+// +build verif
+
+// Machine-checked contracts (read by /verif/bin/govc; never compiled into
+// normal builds).  See /verif/DESIGN.md section 3 for the language.
+
+package worker
+
+// ------------------------------------------------------------------- C14
+// StartContainer: a container is started only on a worker of the requested
+// instance type that is idle and whose idle behaviour is "run" (never held,
+// draining, booting or shut down); false iff no such worker exists.
+//@ func Pool.StartContainer property C14
+//@   calls worker.startContainer#1: requires wkr != nil && wkr.instType == it && wkr.state == StateIdle && wkr.idleBehavior == IdleBehaviorRun && $0 == ctr
+//@   loop 1: invariant it == old(it) && ctr == old(ctr) && (wkr != nil ==> wkr.instType == it && wkr.state == StateIdle && wkr.idleBehavior == IdleBehaviorRun)
+
+// Completion of a start (goroutine body, verified sequentially): the container
+// moves from starting to running and the worker's "updated" stamp is bumped
+// together with "busy", so that a probe result computed before the start is
+// discarded instead of declaring the live container exited.
+//@ func worker.startContainer$1 property C14
+//@   ensures wkr.updated == wkr.busy && has(wkr.running, ctr.UUID) && !has(wkr.starting, ctr.UUID) && wkr.lastUUID == ctr.UUID
